@@ -1,0 +1,53 @@
+//go:build verif
+
+// Contracts for property C04 (parity slice): every evaluation path of Loop point containment returns
+// "start bit XOR parity of the stateless crossing predicate over the edges it is responsible for":
+// the brute-force path over all edges from OriginPoint, the index path over the clipped edges of the
+// located cell from the cell centre (whatever mix of chained and restarted crosser calls it uses).
+// The crossing predicate is the stateless specification of vc_crossing_verif.go (C03). That the two
+// parities agree (the index's containsCenter bits, path independence on the sphere) is topological
+// and not decided here. Exact IEEE comparisons (fpcmp). Comment-only; build tag verif.
+
+package s2
+
+//@ property C04
+
+// parity of vcEOV(o, p, v[j], v[j+1]) over the first k edges of the loop (edge j joins vertex j and vertex j+1 mod n)
+//@ spec func vcLoopParity(l *Loop, o Point, p Point, k int) bool = k > 0 && (vcLoopParity(l, o, p, k-1) != vcEOV(o, p, l.vertices[k-1], l.vertices[vcWrap(k, len(l.vertices))]))
+//@   decreases k
+
+//@ func (l *Loop) bruteForceContainsPoint(p Point) bool
+//@   absmod
+//@   requires l != nil && len(l.vertices) >= 1
+//@   ensures [parity] result == (l.originInside != vcLoopParity(l, OriginPoint(), p, len(l.vertices)))
+//@   loop 1 (i int, inside bool, crosser *EdgeCrosser, origin Point): invariant [range] 1 <= i && i <= len(l.vertices)+1
+//@   loop 1: invariant [crosser] vcCrosserInv(crosser) && vcSame(crosser.a, origin) && vcSame(crosser.b, p) && vcSame(crosser.c, l.vertices[vcWrap(i-1, len(l.vertices))])
+//@   loop 1: invariant [parity] inside == (l.originInside != vcLoopParity(l, origin, p, i-1))
+
+// first match, or nil when no clipped shape has that id
+//@ func (s *ShapeIndexCell) findByShapeID(shapeID int32) *clippedShape
+//@   requires s != nil && (forall k int :: 0 <= k && k < len(s.shapes) ==> s.shapes[k] != nil)
+//@   ensures [found] result != nil ==> (exists k int :: 0 <= k && k < len(s.shapes) && s.shapes[k] == result && result.shapeID == shapeID)
+//@   ensures [first] len(s.shapes) >= 1 && s.shapes[0].shapeID == shapeID ==> result == s.shapes[0]
+//@   ensures [absent] result == nil ==> (forall k int :: 0 <= k && k < len(s.shapes) ==> s.shapes[k].shapeID != shapeID)
+//@   loop 1 (rangeindex int): invariant forall k int :: 0 <= k && k <= rangeindex ==> s.shapes[k].shapeID != shapeID
+
+//@ func (ci CellID) Point() Point
+//@   assumed "cell centre: a deterministic function of the id (floating point, value not decided here)"
+//@   pure
+
+// parity over the first k clipped edges of one index cell
+//@ spec func vcClipParity(l *Loop, edges []int, o Point, p Point, k int) bool = k > 0 && (vcClipParity(l, edges, o, p, k-1) != vcEOV(o, p, l.vertices[edges[k-1]], l.vertices[vcWrap(edges[k-1]+1, len(l.vertices))]))
+//@   decreases k
+
+// the index path: a loop's own index holds one shape (id 0); the located cell's clipped shape lists edge ids of the loop
+//@ func (l *Loop) iteratorContainsPoint(it *ShapeIndexIterator, p Point) bool
+//@   absmod
+//@   requires l != nil && len(l.vertices) >= 1 && it != nil && it.cell != nil && len(it.cell.shapes) == 1 && it.cell.shapes[0] != nil && it.cell.shapes[0].shapeID == 0
+//@   requires forall k int :: 0 <= k && k < len(it.cell.shapes[0].edges) ==> 0 <= it.cell.shapes[0].edges[k] && it.cell.shapes[0].edges[k] < len(l.vertices)
+//@   ensures [parity] result == (it.cell.shapes[0].containsCenter != vcClipParity(l, it.cell.shapes[0].edges, it.Center(), p, len(it.cell.shapes[0].edges)))
+//@   loop 1 (rangeindex int, inside bool, crosser *EdgeCrosser, aiPrev int, aClipped *clippedShape, center Point): invariant [range] -1 <= rangeindex && rangeindex < len(aClipped.edges)
+//@   loop 1: invariant [crosser] vcCrosserInv(crosser) && vcSame(crosser.a, center) && vcSame(crosser.b, p)
+//@   loop 1: invariant [chain] rangeindex >= 0 ==> aiPrev == aClipped.edges[rangeindex] && vcSame(crosser.c, l.vertices[vcWrap(aiPrev+1, len(l.vertices))])
+//@   loop 1: invariant [first] rangeindex < 0 ==> aiPrev == -2
+//@   loop 1: invariant [parity] inside == (aClipped.containsCenter != vcClipParity(l, aClipped.edges, center, p, rangeindex+1))
